@@ -1,5 +1,6 @@
 import GeoVerif.Corr.Proto
 import GeoVerif.Model.Clenshaw
+import GeoVerif.Model.GeodLengths
 /-! Correspondence for C01: documented output ranges, decided on every sampled result -/
 namespace GeoVerif.Corr.C01
 open GeoVerif GeoVerif.Proto
@@ -31,6 +32,19 @@ def handle (op : String) (args res : List String) : Option Verdict :=
          else .bad s!"SinCosSeries: impl={impl} model={m}"
        | _, _, _, _ => .bad "parse")
     | _, _ => .bad "parse"
+  | "lengths" => some <|
+    -- `Geodesic::Lengths` (private) against the polymorphic model in binary64, coefficient tables from Gen
+    let pf (s : String) : Option Float := (hexToNat s).map fun n => Float.ofBits n.toUInt64
+    match args.dropLast.mapM pf, args.getLast?, res.mapM pf with
+    | some [ep2, eps, sig12, ssig1, csig1, dn1, ssig2, csig2, dn2, cbet1, cbet2], some dist, some [s12b, m12b, m0, M12, M21] =>
+      let o := GeodLengths.lengths ep2 eps sig12 ssig1 csig1 dn1 ssig2 csig2 dn2 cbet1 cbet2 (dist == "1")
+      let cl (a b : Float) (sc : Float) : Bool := (a.isNaN && b.isNaN) || Float.abs (a - b) ≤ 1e-14 * sc
+      let okS := dist != "1" || cl o.s12b s12b (1 + Float.abs sig12)
+      if okS && cl o.m12b m12b (1 + Float.abs sig12) && cl o.m0 m0 1 && cl o.M12 M12 (1 + Float.abs sig12) && cl o.M21 M21 (1 + Float.abs sig12) then .ok
+      else .bad s!"Geodesic::Lengths: impl=({s12b},{m12b},{m0},{M12},{M21}) model=({o.s12b},{o.m12b},{o.m0},{o.M12},{o.M21})"
+    | _, _, _ => .bad "parse"
+  | "glengths" => some (.skip "m12/M12/M21/S12 are judged against the quadrature oracle by the harness")
+  | "ginvlengths" => some (.skip "reversal, addition rules and interface agreement are judged by the harness")
   | _ => none
 
 end GeoVerif.Corr.C01
